@@ -45,17 +45,23 @@ const DELAYS: [Delay; 5] = [Delay::Zero, Delay::Half, Delay::AtT, Delay::Late, D
 
 #[derive(Clone, Debug)]
 struct Scn {
-    /// seconds; 0 = disabled (NONE)
+    /// milliseconds; 0 = disabled (NONE)
     interval: u64,
-    /// seconds; 0 = NONE (not set)
+    /// milliseconds; 0 = NONE (not set)
     timeout: u64,
     rounds: Vec<Delay>,
     /// after the scripted rounds: true = answer at once forever, false = stay silent
     prompt_tail: bool,
 }
 
-fn od(s: u64) -> OptionalDuration {
-    if s == 0 { OptionalDuration::NONE } else { OptionalDuration::from_secs(s) }
+fn od(ms: u64) -> OptionalDuration {
+    if ms == 0 {
+        OptionalDuration::NONE
+    } else if ms % 1000 == 0 {
+        OptionalDuration::from_secs(ms / 1000)
+    } else {
+        OptionalDuration::from(Duration::from_millis(ms))
+    }
 }
 
 /// Wait until some task is woken (a tokio timer fired) or until `until`.
@@ -94,10 +100,10 @@ async fn run_async(sc: &Scn, render: bool) -> RunOutput {
     w.spawn_dgram_receiver(0, "dgrecv.a", usize::MAX, false);
     w.spawn_acceptor(0, usize::MAX, std::collections::BTreeMap::new());
     let enabled = sc.interval != 0;
-    let i = Duration::from_secs(sc.interval);
+    let i = Duration::from_millis(sc.interval);
     // effective timeout: NONE stays NONE; a finite one is raised to the interval
-    let t_eff: Option<Duration> = if !enabled || sc.timeout == 0 { None } else { Some(Duration::from_secs(sc.timeout.max(sc.interval))) };
-    let horizon = t0 + Duration::from_secs(if enabled { (sc.rounds.len() as u64 + 4) * sc.interval + 3 * sc.timeout.max(sc.interval) + 2 } else { 12 });
+    let t_eff: Option<Duration> = if !enabled || sc.timeout == 0 { None } else { Some(Duration::from_millis(sc.timeout.max(sc.interval))) };
+    let horizon = t0 + Duration::from_millis(if enabled { (sc.rounds.len() as u64 + 4) * sc.interval + 3 * sc.timeout.max(sc.interval) + 2000 } else { 12_000 });
     let mut viol: Vec<(String, String)> = Vec::new();
     let mut fps = Vec::new();
     let mut wit = 0u64;
@@ -121,7 +127,7 @@ async fn run_async(sc: &Scn, render: bool) -> RunOutput {
                 let k = pings.len();
                 pings.push(now - t0);
                 let d = if k < sc.rounds.len() { sc.rounds[k] } else if sc.prompt_tail { Delay::Zero } else { Delay::Never };
-                let base = t_eff.unwrap_or(Duration::from_secs(sc.interval.max(1)));
+                let base = t_eff.unwrap_or(Duration::from_millis(sc.interval.max(1000)));
                 let delay = match d {
                     Delay::Zero => Some(Duration::ZERO),
                     Delay::Half => Some(base / 2),
@@ -290,13 +296,15 @@ pub fn run(args: &Args) -> Report {
     let rounds = if thorough { 5 } else { 3 };
     let mut cases = Vec::new();
     let mut cfgs: Vec<(u64, u64)> = Vec::new();
-    for i in [1u64, 2, 3] {
-        for t in [0u64, 1, 2, 3, 5] {
+    for i in [1000u64, 2000, 3000] {
+        for t in [0u64, 1000, 2000, 3000, 5000] {
             cfgs.push((i, t));
         }
     }
+    // sub-second parts (only reachable through the library API): T < I within the same whole second, T > I, tiny values
+    cfgs.extend([(1500, 1000), (2900, 2100), (500, 300), (1000, 1500), (1200, 1200), (700, 0)]);
     cfgs.push((0, 0));
-    cfgs.push((0, 2));
+    cfgs.push((0, 2000));
     for (interval, timeout) in cfgs {
         // every history of pong delays of length exactly `rounds` (shorter ones are prefixes followed by the tail policy)
         let total = DELAYS.len().pow(rounds as u32);
@@ -307,14 +315,14 @@ pub fn run(args: &Args) -> Report {
                     continue;
                 }
                 let sc = Scn { interval, timeout, rounds: hist.clone(), prompt_tail };
-                let label = format!("I={interval}s T={}s history={hist:?} then {}", if timeout == 0 { "NONE".to_string() } else { timeout.to_string() }, if prompt_tail { "prompt" } else { "silent" });
+                let label = format!("I={interval}ms T={}ms history={hist:?} then {}", if timeout == 0 { "NONE".to_string() } else { timeout.to_string() }, if prompt_tail { "prompt" } else { "silent" });
                 cases.push(Case { label, exec: Box::new(move |r| exec(&sc, r)) });
             }
         }
     }
     rep.bounds.insert("rounds".into(), serde_json::json!(rounds));
     rep.bounds.insert("delay_alphabet".into(), serde_json::json!(["0", "T/2", "T", "T+10ms", "never"]));
-    rep.bounds.insert("interval_timeout_pairs".into(), serde_json::json!("I in {1,2,3} s x T in {NONE,1,2,3,5} s (T<I clamped), plus I=NONE with and without T"));
+    rep.bounds.insert("interval_timeout_pairs".into(), serde_json::json!("I in {1,2,3} s x T in {NONE,1,2,3,5} s (T<I clamped), sub-second pairs (1.5,1.0) (2.9,2.1) (0.5,0.3) (1.0,1.5) (1.2,1.2) (0.7,NONE), plus I=NONE with and without T"));
     let plan = Plan {
         ks: vec![0, 1],
         env: 0,
